@@ -10,6 +10,7 @@ import PP.Driver.OpsC16
 import PP.Driver.OpsC01
 import PP.Driver.OpsC11
 import PP.Driver.OpsC07
+import PP.Driver.OpsC19b
 /-
 Request handlers of the model driver.
 -/
@@ -182,6 +183,9 @@ def handle (j : Json) : Except String Json := do
                 | none =>
                   match PP.OpsC07.handle op j with
                   | some r => r
-                  | none => throw s!"unknown op {op}"
+                  | none =>
+                    match PP.OpsC19b.handle op j with
+                    | some r => r
+                    | none => throw s!"unknown op {op}"
 
 end PP.Ops
